@@ -8,6 +8,7 @@ mkdir -p build evidence replays coq/Gen
 /venv/bin/python translator/py2gallina_list.py /repo/src/mbi/domain.py coq/Gen/Domain_gen.v domain || echo "domain translator failed (C15 will report it)"
 /venv/bin/python translator/py2gallina_budget.py /repo/mechanisms coq/Gen/Budget_gen.v || echo "budget translator failed (C05 will report it)"
 /venv/bin/python translator/py2gallina_bp.py /repo/src/mbi/graphical_model.py coq/Gen/BP_gen.v || echo "belief_propagation translator failed (C01 will report it)"
+/venv/bin/python translator/py2gallina_mp.py /repo/src/mbi/junction_tree.py coq/Gen/MpOrder_gen.v || echo "mp_order translator failed (C12 will report it)"
 ( cd coq && coq_makefile -f _CoqProject -o Makefile >/dev/null && timeout 3000 make -k -j"${VERIF_JOBS:-16}" || true; rm -f model.ml model.mli cdp_model.ml cdp_model.mli num_model.ml num_model.mli gen_model.ml gen_model.mli )
 ./harness/build_model.sh main
 ./harness/build_model.sh num
